@@ -192,6 +192,7 @@ class TemplateData(object):
             self.index_to_node = {}
             self.next_index = functools.partial(next, itertools.count())
             self.nbits_associated_list = []  # 204 YYY
+            self.defining_new_refval = False  # 203 YYY ... 203 255
             self.data_not_present_count = 0  # 221
             self.waiting_for_qa_info_meaning = False
             self.waiting_for_1st_order_stats_meaning = False
@@ -301,8 +302,12 @@ class TemplateData(object):
         """
         operator_code, operand_value = descriptor.operator_code, descriptor.operand_value
 
-        if operator_code in (201, 202, 203, 206, 207, 208,):
-            # nbits offset, scale offset, new refval, skip local, increment, change string length
+        if operator_code in (201, 202, 206, 207, 208,):
+            # nbits offset, scale offset, skip local, increment, change string length
+            self.add_node(NoValueDataNode(descriptor))
+
+        elif operator_code == 203:  # new reference values are defined up to 203 255
+            self.defining_new_refval = operand_value not in (0, 255)
             self.add_node(NoValueDataNode(descriptor))
 
         elif operator_code == 204:  # associated field
@@ -387,6 +392,12 @@ class TemplateData(object):
                     if not (1 <= X <= 9 or X == 31):  # skipping
                         self.add_node(NoValueDataNode(member))
                         continue
+
+            # A new reference value definition is a bare value: the coder gives it
+            # neither an associated field (204) nor any attribute
+            if self.defining_new_refval and type(member) is ElementDescriptor:
+                self.add_value_node()
+                continue
 
             # Now process normally
             if isinstance(member, ElementDescriptor):
